@@ -38,13 +38,17 @@ Definition env_of (g : genv) : env := {|
 Inductive c09case :=
 | KProg (g : genv) (items : list stmt) (r : ires unit)            (* type_check::run on a file *)
 | KCty (g : genv) (e : texpr) (r : ires ety)                      (* Expr::compute_ty of an accepted expression *)
-| KDyn (g : genv) (regs : list (Z * value)) (vars : list (nat * value)) (e : texpr) (diff : nat) (r : ires sty).
+| KDyn (g : genv) (regs : list (Z * value)) (vars : list (nat * value)) (e : texpr) (diff : nat) (r : ires sty)
                                                                   (* AstVm::eval(e).ty() of an accepted expression *)
+| KCv (g : genv) (defs : list (nat * texpr)) (id : nat) (r : ires sty)
+                                                                  (* type of the value evaluate_const_vars caches for const id *)
+| KFold (g : genv) (e : texpr) (r : ires sty).                    (* type of the literal const_simplify folds e to *)
 
 Definition agree_tc (m : tcres) (i : ires unit) : bool :=
   match m, i with TOk, IOk _ | TErr, IErr | TPanic, IPanic => true | _, _ => false end.
 
 Definition libm0 (_ : unop) (_ : Z) : Z := 0.
+Definition CFUEL : nat := 200.
 
 Definition model_of (c : c09case) : bool :=
   match c with
@@ -67,6 +71,24 @@ Definition model_of (c : c09case) : bool :=
           | _, _ => false
           end
       | _ => true      (* the VM did not produce a value: nothing is claimed *)
+      end
+  | KCv g defs id r =>
+      (* the model's const evaluator (Model/Expr.ceval: the DFS evaluator of context/consts.rs, whose cache
+         only memoises completely evaluated consts) gives a value of the type the implementation cached, and
+         that is the const's declared type *)
+      match r with
+      | IOk t' =>
+          match ceval gen_optable libm0 (assoc (map (fun p => (fst p, to_expr (snd p))) defs)) CFUEL [] (EVar None id),
+                var_ty (env_of g) id with
+          | Ok v, Typed t => sty_eqb (type_of_value v) t' && sty_eqb t t'
+          | _, _ => false
+          end
+      | _ => true
+      end
+  | KFold g e r =>
+      match r with
+      | IOk t' => match compute_ty gen_optypes (env_of g) e with Ok (Value t) => sty_eqb t t' | _ => false end
+      | _ => true
       end
   end.
 
@@ -92,6 +114,19 @@ Definition spec_of (c : c09case) : bool :=
       | _, _ => true
       end
   | KDyn g regs vars e d r =>
+      match r, check_expr spec_optypes (env_of g) e with
+      | IOk t', Ok (Value t) => sty_eqb t t'
+      | IOk _, Ok Void => false
+      | _, _ => true
+      end
+  | KCv g _ id r =>
+      (* the checker's type of a const is its declared type *)
+      match r, var_ty (env_of g) id with
+      | IOk t', Typed t => sty_eqb t t'
+      | IOk _, Untyped => false
+      | _, _ => true
+      end
+  | KFold g e r =>
       match r, check_expr spec_optypes (env_of g) e with
       | IOk t', Ok (Value t) => sty_eqb t t'
       | IOk _, Ok Void => false
@@ -179,6 +214,8 @@ Definition explain_codes (c : c09case) : list N :=
   | KProg g items _ => dedup (flat_map (scodes gen_optypes gen_tctable (env_of g) true) items)
   | KCty g e _ => dedup (ecodes gen_optypes (env_of g) e)
   | KDyn g _ _ e _ _ => dedup (ecodes gen_optypes (env_of g) e)
+  | KCv g defs _ _ => dedup (flat_map (fun p => ecodes gen_optypes (env_of g) (snd p)) defs)
+  | KFold g e _ => dedup (ecodes gen_optypes (env_of g) e)
   end.
 Definition explain (c : c09case) : N := fold_right (fun k acc => (acc + 2 ^ k)%N) 0%N (explain_codes c).
 Definition explain_all (_ : N) (l : list c09case) : list N := map explain l.
